@@ -196,3 +196,38 @@ package packfile
 //gvc:  ensures val: err == nil ==> sz == spec_copy_size(cmd, delta.#data, p0) && delta.#pos == p0 + spec_popcount3((cmd >> 4) & 7)
 //gvc:  ensures bound: err == nil ==> 1 <= sz && sz <= 0xffffff
 //gvc:end
+
+// entryHead: pack entry header (git pack-write.c encode_in_pack_object_header):
+// type in bits 4-6 of the first byte, size in 4 + 7*k bits, least significant
+// first, continuation flag on every byte but the last. Stated range: size >= 0
+// (a negative size would never terminate: reported, not assumed away) and a
+// valid 3-bit type.
+//gvc:func (*Encoder).entryHead
+//gvc:  props C07
+//gvc:  theory bv
+//gvc:  opt nomerge
+//gvc:  results err
+//gvc:  modifies e.w@offsetWriter.offset, e.w.w.#wlen, e.w.w.#wdata
+//gvc:  requires nonneg: size >= 0
+//gvc:  requires typ: 1 <= typeNum && typeNum <= 7
+//gvc:  requires wnn: e.w != nil && e.w.w != nil && 0 <= e.w.offset && e.w.offset <= 0x2000000000000000
+//gvc:  loop 1 unroll 10
+//gvc:  ensures type: (now(header)[0] >> 4) & 7 == typeNum
+//gvc:  ensures size: spec_pack_size(now(header)[0], arr(now(header)), off(now(header)) + 1, len(now(header)) - 1) == size
+//gvc:  ensures length: 1 <= len(now(header)) && len(now(header)) <= 10
+//gvc:  ensures last: now(header)[len(now(header)) - 1] & 0x80 == 0
+//gvc:  ensures conts: forall(k, 0, 9, k + 1 < len(now(header)) ==> now(header)[k] & 0x80 != 0)
+//gvc:end
+
+// offsetWriter: offset == number of bytes accepted by the underlying writer
+// since construction (object invariant preserved by Write).
+//gvc:func (*offsetWriter).Write
+//gvc:  props C07
+//gvc:  theory int
+//gvc:  modifies ow.offset, ow.w.#wlen, ow.w.#wdata
+//gvc:  requires wnn: ow.w != nil
+//gvc:  requires sane: 0 <= ow.offset && ow.offset <= 0x2000000000000000
+//gvc:  ensures count: ow.offset == old(ow.offset) + n && ow.w.#wlen == old(ow.w.#wlen) + n
+//gvc:  ensures range: 0 <= n && n <= len(p)
+//gvc:  ensures all: err == nil ==> n == len(p)
+//gvc:end
